@@ -27,7 +27,7 @@ def main():
             todo = only or ([pid] if pid in accepted else []) + [c for c in accepted if c != pid]
             det = {}
             for c in todo:
-                r = sh([sys.executable, os.path.join(VERIF, "check.py"), c], env=dict(os.environ, VERIF_REPO=wt))
+                r = sh([sys.executable, os.path.join(VERIF, "check.py"), c, "--tier", "thorough"], env=dict(os.environ, VERIF_REPO=wt))
                 fired = r.returncode == 1 and ("VIOLATION property=" + c) in r.stdout
                 det[c] = {"fired": fired, "fails": [l for l in r.stdout.splitlines() if l.startswith("[FAIL]")][:4]}
             now = sorted(c for c, v in det.items() if v["fired"])
